@@ -98,13 +98,13 @@ CLAIMS.update({
    technique="Lean 4 proof (generated hash-site coverage obligation, permutation invariance, clock independence) + repeat-run judge (fresh processes and in-process)",
    ref="DESIGN.md §5 C05"),
  "C08": dict(
-   text="The model is total: every function is a total Lean function, a Rust panic inside a modelled function is an explicit Outcome.panic. (1) GENERATED obligation: every panic-capable construct (unwrap, expect, unreachable!, panic!, slicing, indexing, narrowing casts, exit) found in the current source per function is in the reviewed baseline (a new one breaks the theorem); (2) with the arities the parser enforces (generated table), no function call indexes out of bounds whatever the argument result sets are; (3) scope-stack discipline proved for the whole fuel-indexed mutual evaluator (all 17 functions, every program, document, state): the stack pattern match of resolve_variable and resolver.root() after a step cannot fail; (4) the model predicts panic exactly where the implementation panics (correspondence, catch_unwind). Judged on: adversarial + random parser-accepted programs x documents through run_checks (verbose and report mode); byte/token-mutated rules, data, test, payload and parameter files through validate / test / parse-tree / rulegen in-process and in the real binary (signals, exit status, timeouts); every rules file the grammar rejects must be rejected with line and column and without evaluating any rule.",
-   note="Partial: the nom grammar and libyaml on arbitrary bytes are outside the model (testing only). Known findings F-C08-1 (self-calling parameterised rule overflows the stack) and F-C08-2 (parse time doubles per filter nesting level). Genuine defects repaired: c360fa1, 1ff20c9, 1ce4a53, 3091729, d49a770, 5cf016c, 57f0017, 1adb1d3, 81fec31, f0c00fd, de9d89f, d4746fd, afbc8cc, 6b03de4, 1fdce50, a0fc979, a9b2158. Sites labelled `audited` in the baseline are inventoried, not proved unreachable.",
-   technique="Lean 4 proof (generated panic-site coverage obligation, no-index-panic theorem, total model) + mutated-input / adversarial-program crash judge",
+   text="The model is total: every function is a total Lean function, a Rust panic inside a modelled function is an explicit Outcome.panic. (1) GENERATED obligation: every panic-capable construct (unwrap, expect, unreachable!, panic!, slicing, indexing, narrowing casts, exit) found in the current source per function is in the reviewed baseline (a new one breaks the theorem); (2) with the arities the parser enforces (generated table), no function call indexes out of bounds whatever the argument result sets are; (3) scope-stack discipline proved for the whole fuel-indexed mutual evaluator (all 17 functions, every program, document, state): the stack pattern match of resolve_variable and resolver.root() after a step cannot fail; (4) C08_evaluator_never_panics / C08_no_unreachable: for EVERY well-formed rules file (RulesFile.wf, the decidable shape invariants of parser output - evaluated by the driver on every AST the harness sends, a `false` is a correspondence disagreement), document, Env and fuel the evaluator model can only panic at two residue sites (the keys-filter map lookup, the model-only float-oracle site): no unreachable!() arm, query/argument index or scope-stack match is reachable (fuel induction over all 17 functions); C08_comparison_layer_never_panics: (CmpOperator, bool)::compare never panics for any operator, polarity and result sets; (5) the model predicts panic exactly where the implementation panics (correspondence, catch_unwind). Judged on: adversarial + random parser-accepted programs x documents through run_checks (verbose and report mode); byte/token-mutated rules, data, test, payload and parameter files through validate / test / parse-tree / rulegen in-process and in the real binary (signals, exit status, timeouts); every rules file the grammar rejects must be rejected with line and column and without evaluating any rule.",
+   note="Partial: the nom grammar and libyaml on arbitrary bytes are outside the model (testing only); termination is not proved (the model is fuel-indexed, outOfFuel stands for unbounded recursion); the residue site of the keys filter needs the keys.len = values.len invariant of loaded maps. Known findings F-C08-1 (self-calling parameterised rule overflows the stack) and F-C08-2 (parse time doubles per filter nesting level). Genuine defects repaired: c360fa1, 1ff20c9, 1ce4a53, 3091729, d49a770, 5cf016c, 57f0017, 1adb1d3, 81fec31, f0c00fd, de9d89f, d4746fd, afbc8cc, 6b03de4, 1fdce50, a0fc979, a9b2158. Sites labelled `audited` in the baseline are inventoried, not proved unreachable.",
+   technique="Lean 4 proof (whole-evaluator never-panics theorem on well-formed files by fuel induction, comparison layer panic-free, generated panic-site coverage obligation, total model) + well-formedness of parser output checked per AST + mutated-input / adversarial-program crash judge",
    ref="DESIGN.md §5 C08"),
  "C10": dict(
-   text="Lean theorems on the loader and retrieval model for documents of any size: every value reachable in a loaded document by the segments s1..sn carries exactly the pointer /s1/../sn (so a reported path resolves to the reported value); for every query made of keys, indices, [*], .* and this (no variables, no filters) and every fuel, scope state and case-conversion mode, each result of the evaluator model's queryRetrieval - resolved, or the point an unresolved result stopped at - sits in the document at the pointer it carries and no literal is produced (C10_plain_query_sound, by induction over the fuel-indexed mutual evaluator); an unresolved step names the value it stopped at, that value is in the document and the missing key / index does not resolve there. Judged on the real evaluator: generated function-free rule files x documents serialised as JSON, flow and block YAML with randomised layout - every reported from / traversed_to (and data-borne to) must resolve to exactly its value, the next queried segment must be absent at traversed_to, and every [L:l,C:c] of a scalar must equal the position an independent scanner (PyYAML composer) gives that scalar.",
-   note="Partial: source positions (libyaml marks) are not modelled, only judged; soundness of queries with filters or variables rests on the step lemmas + correspondence.",
+   text="Lean theorems on the loader and retrieval model for documents of any size: every value reachable in a loaded document by the segments s1..sn carries exactly the pointer /s1/../sn (so a reported path resolves to the reported value); for every query made of keys, indices, [*], .* (with or without key capture), this and FILTERS OF ANY CONTENT (no variable head, no keys filter) and every fuel, scope state, rules file and case-conversion mode, each result of the evaluator model's queryRetrieval - resolved, or the point an unresolved result stopped at - sits in the document at the pointer it carries and no literal is produced (C10_plain_query_sound, C10_filter_query_sound, by induction over the fuel-indexed mutual evaluator); an unresolved step names the value it stopped at, that value is in the document and the missing key / index does not resolve there. Judged on the real evaluator: generated function-free rule files x documents serialised as JSON, flow and block YAML with randomised layout - every reported from / traversed_to (and data-borne to) must resolve to exactly its value, the next queried segment must be absent at traversed_to, and every [L:l,C:c] of a scalar must equal the position an independent scanner (PyYAML composer) gives that scalar.",
+   note="Partial: source positions (libyaml marks) are not modelled, only judged; soundness of queries with a variable head or a keys filter rests on the step lemmas + correspondence.",
    technique="Lean 4 proof of load-path soundness and retrieval-step closure + layout-randomised path/value/position judge",
    ref="DESIGN.md §5 C10"),
 })
